@@ -3,6 +3,7 @@ package main
 import (
 	"fmt"
 	"go/token"
+	"go/types"
 	"sort"
 	"strings"
 
@@ -78,7 +79,7 @@ func checkC11(r *Run) {
 				"blocking select without the <-conn.closed case: after an I/O error closes the connection this operation can block for ever (ServeConn never returns, Stop never runs)")
 		}
 	}
-	r.Floor("select-wakeup", nSel, 7, "blocking channel operations in the conn component")
+	r.Floor("select-wakeup", nSel, 5, "blocking channel operations in the conn component")
 
 	// B. close discipline
 	nClose := 0
@@ -369,7 +370,11 @@ func c11CancelAll(r *Run, p *Prog) {
 						continue
 					}
 					for i, cs := range op.Cases {
-						if !cs.Send && strings.HasPrefix(cs.Prov, "local:completed") {
+						isCompl := strings.HasPrefix(cs.Prov, "local:completed")
+						if ct, okc := cs.Chan.Type().Underlying().(*types.Chan); okc && strings.Contains(shortType(ct.Elem()), "completion") {
+							isCompl = true // the channel of handler completions, whatever its binding form
+						}
+						if !cs.Send && isCompl {
 							if blk := selectCaseBlock(sel, i); blk != nil && (blk == c.Block() || blk.Dominates(c.Block())) {
 								ok2 = true
 							}
